@@ -70,10 +70,10 @@ theorem recvPollPushed_npi_noPPP {E : Nat → Prop} {s : Streams} (hn : NPI E s)
   exact ⟨hn.lt (pollPushedNil_lt s k t).w (liveAll1 hk) e noE, (pollPushedNil_pp s k t).pw.noPPP hj⟩
 
 /-- role and push switch are not touched either -/
-theorem refPollPushed_rp (s : Streams) (k : Nat) (t : String) : RP s (s.refPollPushed k t).1 :=
+theorem refPollPushed_roleKeep (s : Streams) (k : Nat) (t : String) : RoleKeep s (s.refPollPushed k t).1 :=
   .of_view (ConnCtlP.view_refPollPushed s k t)
 
 theorem refPollPushed_noPush {s : Streams} (hp : NoPush s) (k : Nat) (t : String) : NoPush (s.refPollPushed k t).1 :=
-  (refPollPushed_rp s k t).noPush hp
+  (refPollPushed_roleKeep s k t).noPush hp
 
 end H2V.Lemmas.ConnNoPanicP
